@@ -56,17 +56,36 @@ def extract_all(chk, fb, rule_id):
     return body, tab, meta
 
 
+def recursion_drivers(fb, inner_path):
+    """The function(s) through which the derivative recurses: `partial_deepex` and, if it is a wrapper that only builds the rule
+    table, the private function it hands over to (which calls the inner derivative)."""
+    from analysis.callgraph import CallGraph
+    cg = CallGraph(fb)
+    pub = [p for p in fb.bodies if p.endswith("partial::partial_deepex")]
+    out = set(pub)
+    for p in pub:
+        for bi, t in mir.calls(fb.bodies[p]):
+            cp = mir.callee_path(t) or ""
+            cb = fb.bodies.get(cp)
+            if cb is not None and cp.startswith("expression::partial::") and "{closure" not in cp and cp != inner_path \
+                    and any((mir.callee_path(t2) or "") == inner_path for _, t2 in mir.calls(cb)):
+                out.add(cp)
+    return out
+
+
 def operand_pairs(chk, fb, RID):
     """(value, derivative) pairs fed to the binary rules are (operand, recursive derivative of that operand)."""
     inner = fb.find_bodies(lambda b: b["kind"] == "Fn" and b["path"].endswith("partial::partial_derivative_inner"))
     chk.rule(RID, "inner derivative: every operand enters the rules as (operand, partial_deepex(var_idx, operand, mode)) - no shortcut around the recursive differentiation")
     if len(inner) == 1:
+        drivers = recursion_drivers(fb, inner[0]["path"])
+
         class PO(Policy):
             max_depth = 5
             loop_mode = "widen"
 
             def inline(self, fn, args, interp, path):
-                return fn["path"].startswith("expression::partial::") and fn.get("name") not in (
+                return fn["path"].startswith("expression::partial::") and fn["path"] not in drivers and fn.get("name") not in (
                     "partial_deepex", "partial_derivative_inner", "partial_derivative_outer", "partial_derisval", "partial_deri_per_operand", "make_partial_derivative_ops")
         npair = 0
         bad8 = []
@@ -78,6 +97,8 @@ def operand_pairs(chk, fb, RID):
                 pnames["idx"] = ib0["locals"][i].get("name")
             if ty.endswith("partial::MissingOpMode"):
                 pnames["mode"] = ib0["locals"][i].get("name")
+            if "PartialDerivative<" in ty:
+                pnames["table"] = ib0["locals"][i].get("name")
         for bb_ in [ib0] + [fb.bodies[c] for c in fb.closures_of(ib0["path"])]:
             args_ = [Sym("env")] + [Sym("node%d" % i) for i in range(1, bb_["arg_count"])] if bb_["kind"] == "Closure" else [Sym("p_%s" % (bb_["locals"][i].get("name") or i)) for i in range(1, bb_["arg_count"] + 1)]
             for p in Interp(fb, PO()).run(bb_, args_):
@@ -90,12 +111,22 @@ def operand_pairs(chk, fb, RID):
                     from analysis import rel as _rel
                     dv = _rel.canon(d)
                     npair += 1
-                    good = isinstance(dv, App) and dv.fn == "ok" and isinstance(dv.args[0], App) and dv.args[0].fn == "expression::partial::partial_deepex" and len(dv.args[0].args) == 3
+                    good = isinstance(dv, App) and dv.fn == "ok" and isinstance(dv.args[0], App) and dv.args[0].fn in drivers and len(dv.args[0].args) in (3, 4)
                     if good:
-                        a0, a1, a2 = [_rel.canon(x) for x in dv.args[0].args]
-                        strip_box = lambda z: re.sub(r"^\.pointer\((.*)\)$|^\*", lambda m: m.group(1) or "", _rel.cstr(z))
-                        good = _rel.cstr(a1) == _rel.cstr(v) and re.search(r"(^|[:(_])%s(\(env\))?$" % re.escape(pnames.get("idx") or "?"), _rel.cstr(a0)) is not None \
-                            and re.search(r"(^|[:(_])%s(\(env\))?$" % re.escape(pnames.get("mode") or "?"), _rel.cstr(a2)) is not None
+                        # the arguments of the recursive call: the operand itself, the requested variable, the mode (and the rule table handed down)
+                        roles = []
+                        for x in dv.args[0].args:
+                            cx = _rel.cstr(_rel.canon(x))
+                            if cx == _rel.cstr(v):
+                                roles.append("operand")
+                                continue
+                            for role in ("idx", "mode", "table"):
+                                if pnames.get(role) and re.search(r"(^|[:(_])%s(\(env\))?$" % re.escape(pnames[role]), cx) is not None:
+                                    roles.append(role)
+                                    break
+                            else:
+                                roles.append("?" + cx[:40])
+                        good = sorted(roles) in (["idx", "mode", "operand"], ["idx", "mode", "operand", "table"])
                     if not good:
                         bad8.append((show(v)[:80], show(d)[:120], loc(e[2])))
         if bad8:
@@ -230,6 +261,11 @@ def run(ctx):
     else:
         class P2(Policy):
             try_mode = "ok_only"
+
+            def inline(self, fn, args, interp, path):
+                # a private function the public driver hands over to is part of the driver
+                return fn["path"].startswith("expression::partial::") and fn.get("name") not in (
+                    "partial_derivative_inner", "partial_derivative_outer", "make_partial_derivative_ops")
         ps = Interp(fb, P2()).run(pd[0], [Sym("idx"), Sym("ex"), Sym("mode")])
         ps = [p for p in ps if p.status == "return"]
         s = show(ps[0].result) if len(ps) == 1 else ""
